@@ -1,5 +1,5 @@
 """Definitions of the per-property checks: drivers, trace-spec invariants, design-model configs, coverage rules."""
-import json, hashlib, re
+import json, hashlib, os, re
 
 INV = {
     'C01': ['Inv_C01_WriteOnlyIfPermitted', 'Inv_C01_LadderMatchesStatement', 'Inv_C01_RefusalReported',
@@ -207,6 +207,18 @@ def coverage(pid, results):
 ALL_SCHED = ['C01', 'C02', 'C03', 'C04', 'C05', 'C06', 'C09', 'C11']
 
 
+# thorough-tier sample sizes are the nominal ones times this factor (fit to a loaded 16-core machine: every check ends within ~25 min)
+THOROUGH_SCALE = float(os.environ.get('VERIF_THOROUGH_SCALE', '0.4'))
+
+
+def TN(n):
+    return max(1, int(n * THOROUGH_SCALE))
+
+
+def T(n):
+    return str(TN(n))
+
+
 def rnd(name, scenarios, profile, mode, n, steps, seed, shards):
     return dict(name=name, shards=shards, driver=['random', '-scenarios', scenarios, '-profile', profile, '-mode', mode,
                                                   '-n', str(n), '-steps', str(steps), '-seed', str(seed)])
@@ -217,7 +229,7 @@ def jobs_c01(tier, seed):
     return [
         dict(name='adopt-table', shards=8 if q else 14, driver=['adopt-table', '-n', '4000' if q else '0', '-seed', str(seed)]),
         rnd('collision-atomic', 'collision,handover-2rev,handover-3rev,delegated-handover,delegated-handover-recreated,cluster-delegated-handover,local-to-delegated', 'collision', 'atomic',
-            120 if q else 1500, 50, seed, 4 if q else 12),
+            120 if q else TN(1500), 50, seed, 4 if q else 12),
     ]
 
 
@@ -231,7 +243,7 @@ def replay_jobs(tier):
     """spec-guided replay: TLC-generated behaviours of the design model stepped through the real controller"""
     q = tier == 'quick'
     return [dict(name='replay-' + inst, shards=4 if q else 14, driver=['replay'],
-                 replay=dict(instance=inst, n=56 if q else 1400, depth=80 if q else 120, budgets=(3, 3, 1)))
+                 replay=dict(instance=inst, n=56 if q else TN(1400), depth=80 if q else 120, budgets=(3, 3, 1)))
             for inst in ('handover', 'single3')]
 
 
@@ -240,7 +252,7 @@ def sched_jobs(specs, replay=True):
         q = tier == 'quick'
         out = []
         for (name, scen, profile, mode, nq, nt, steps) in specs:
-            out.append(rnd(name, scen, profile, mode, nq if q else nt, steps, seed, 4 if q else 14))
+            out.append(rnd(name, scen, profile, mode, nq if q else TN(nt), steps, seed, 4 if q else 14))
         if replay:
             out += replay_jobs(tier)
         return out
@@ -463,7 +475,7 @@ CHECKS = {
         ('deploy-race-api', 'deploy-delegated-3rev,deploy-delegated', 'deploy-race', 'api', 160, 3000, 500)])),
     'C09': dict(level='model_checking', invariants=INV['C09'], assumptions=ASSUME, mc=lambda tier: design_mc(MCINV['C09'])(tier) + phase_mc(tier), jobs=lambda tier, seed: [
         dict(name='package-pause', shards=4 if tier == 'quick' else 14,
-             driver=['package-walk', '-mode', 'atomic', '-n', '80' if tier == 'quick' else '2000', '-steps', '70', '-seed', str(seed)])] + sched_jobs([
+             driver=['package-walk', '-mode', 'atomic', '-n', '80' if tier == 'quick' else T(2000), '-steps', '70', '-seed', str(seed)])] + sched_jobs([
         ('pause-atomic', ROLLOUT + ',' + HANDOVER + ',collision', 'pause', 'atomic', 120, 2000, 80),
         ('pause-api', ROLLOUT + ',' + HANDOVER + ',collision', 'pause', 'api', 120, 2000, 150),
         ('deploy-pause', DEPLOY, 'deploy-pause', 'atomic', 80, 1500, 160)])(tier, seed)),
@@ -478,7 +490,7 @@ CHECKS = {
             # states no event leads out of (refused adoption, preflight error) persisting over several passes: is the retry armed every time?
             dict(name='stuck-retry', shards=4 if tier == 'quick' else 14, invariants=['Inv_C10_RetryArmed', 'Inv_C11_ViolationReported', 'Inv_C19_NoPanic'],
                  driver=['random', '-scenarios', 'collision,handover-2rev,handover-cpnone,handover-ifnoctrl', '-profile', 'collision', '-mode', 'atomic',
-                         '-n', '80' if tier == 'quick' else '3000', '-steps', '60', '-seed', str(seed)])]),
+                         '-n', '80' if tier == 'quick' else T(3000), '-steps', '60', '-seed', str(seed)])]),
     'C12': dict(level='model_checking', invariants=INV['C12'], module='TraceDynCache',
                 assumptions=['scripted informer map and stub informers replace client-go informers; the Cache, its locking, reference bookkeeping and cache source are the real code',
                              'concurrent callers: only data races (go -race is not used in the quick tier) and the quiescent end state are checked, intra-lock interleavings are reached by chance'],
@@ -494,24 +506,24 @@ CHECKS = {
                     dict(name='c12-enum', module='TraceDynCache', shards=4 if tier == 'quick' else 14,
                          driver=['c12-seq', '-mode', 'enum', '-steps', '3' if tier == 'quick' else '4']),
                     dict(name='c12-random', module='TraceDynCache', shards=4 if tier == 'quick' else 14,
-                         driver=['c12-seq', '-mode', 'random', '-n', '400' if tier == 'quick' else '20000', '-steps', '14', '-seed', str(seed)]),
+                         driver=['c12-seq', '-mode', 'random', '-n', '400' if tier == 'quick' else T(20000), '-steps', '14', '-seed', str(seed)]),
                     # the real InformerMap against a list/watch server: streams and event delivery (spec/TraceDynCacheReal.tla)
                     dict(name='c12-real', module='TraceDynCacheReal', shards=4 if tier == 'quick' else 14,
                          invariants=['Inv_C12_MatchesReferenceModel', 'Inv_C12_InformerIffOwned', 'Inv_C12_HandlersAttached'],
                          driver=['c12-real', '-n', '0', '-steps', '2' if tier == 'quick' else '3']),
                     dict(name='c12-stress', module='TraceDynCache', shards=4 if tier == 'quick' else 14,
-                         driver=['c12-stress', '-n', '40' if tier == 'quick' else '2000', '-steps', '60', '-seed', str(seed)])]),
+                         driver=['c12-stress', '-n', '40' if tier == 'quick' else T(2000), '-steps', '60', '-seed', str(seed)])]),
     'C13': dict(level='model_checking', invariants=INV['C13'], module='TraceRender', mc=package_env_mc,
                 assumptions=['abstract package domain: 6 pooled file paths (plain, nested, templates with include helper, conditional path), 1-3 documents each with phase / CEL attributes',
                              'each package is rendered repeatedly in one process (Go randomises map iteration per range loop)'],
                 level_text='Every abstract package (all subsets of the file pool exhaustively, document attributes seeded) is concretised into real package files and rendered repeatedly through the real structural loader, RenderPackageInstance, RenderObjectSetTemplateSpec and FNV hash; TLC compares the outcome with the TLA+ function Render!Expected, checks determinism and the template function allow list.',
                 jobs=lambda tier, seed: [dict(name='render-table', module='TraceRender', shards=8 if tier == 'quick' else 14,
-                                              driver=['render-table', '-n', '300' if tier == 'quick' else '20000', '-steps', '12' if tier == 'quick' else '60', '-seed', str(seed)]),
+                                              driver=['render-table', '-n', '300' if tier == 'quick' else T(20000), '-steps', '12' if tier == 'quick' else '60', '-seed', str(seed)]),
                                          # the environment as render input, through the real Package controller and its environment sink:
                                          # two Packages of one image in a plain and in a hosted cluster's namespace (spec/TraceObs.tla)
                                          dict(name='package-env', module='TraceObs', shards=4 if tier == 'quick' else 14,
                                               invariants=['Inv_C13_UnchangedPackageKeepsTemplate', 'Inv_C16_TemplateIsRender', 'Inv_C19_NoPanic'],
-                                              driver=['package-walk', '-profile', 'env', '-mode', 'atomic', '-n', '40' if tier == 'quick' else '1500', '-steps', '80', '-seed', str(seed)]),
+                                              driver=['package-walk', '-profile', 'env', '-mode', 'atomic', '-n', '40' if tier == 'quick' else T(1500), '-steps', '80', '-seed', str(seed)]),
                                          # a phase of more than 1 MiB goes through the default chunker (bin-packing into ObjectSlices): every object
                                          # exactly once, in its phase, in order - judged against the reference render with the slices inlined
                                          dict(name='package-big', module='TraceObs', shards=4 if tier == 'quick' else 14,
@@ -522,19 +534,19 @@ CHECKS = {
         'reference render for Inv_C16_TemplateIsRender = the same pipeline invoked directly on the current spec in a fault-free call'],
         jobs=lambda tier, seed: [
             dict(name='package-atomic', shards=4 if tier == 'quick' else 14,
-                 driver=['package-walk', '-mode', 'atomic', '-n', '90' if tier == 'quick' else '3000', '-steps', '70', '-seed', str(seed)]),
+                 driver=['package-walk', '-mode', 'atomic', '-n', '90' if tier == 'quick' else T(3000), '-steps', '70', '-seed', str(seed)]),
             dict(name='package-api', shards=4 if tier == 'quick' else 14,
-                 driver=['package-walk', '-mode', 'api', '-n', '90' if tier == 'quick' else '3000', '-steps', '160', '-seed', str(seed)])]),
+                 driver=['package-walk', '-mode', 'api', '-n', '90' if tier == 'quick' else T(3000), '-steps', '160', '-seed', str(seed)])]),
     'C17': dict(level='model_checking', invariants=INV['C17'], module='TraceProbing',
                 assumptions=['abstract row domain: selectors {none,match,mismatch}^2, sub-probes condition/fieldsEqual/CEL, object status shapes incl. malformed conditions; observedGeneration values are integers'],
                 level_text='Every row of the abstract probe-list x object table (single-entry lists exhaustively, longer lists sampled/seeded) is concretised, run through the real internal/probing.Parse and pkg/probing probers, and TLC compares verdict, number of reported failures, parse errors and object immutability with the TLA+ function Probing!Pass.',
                 jobs=lambda tier, seed: [dict(name='probe-table', module='TraceProbing', shards=8 if tier == 'quick' else 14,
-                                              driver=['probe-table', '-n', '4000' if tier == 'quick' else '300000', '-seed', str(seed)])]),
+                                              driver=['probe-table', '-n', '4000' if tier == 'quick' else T(300000), '-seed', str(seed)])]),
     'C18': dict(level='model_checking', mc=template_mc, invariants=INV['C18'], assumptions=ASSUME + [
         'reconciles are triggered through the real EnqueueWatchingObjects handler (changes of cache-labelled objects of watched kinds) and RequeueAfter timers',
         'template domain: one template family (required + optional ConfigMap source), unparsable template, out-of-namespace source / target'],
         jobs=lambda tier, seed: [dict(name='template-walk', shards=4 if tier == 'quick' else 14,
-                                      driver=['template-walk', '-n', '140' if tier == 'quick' else '7000', '-steps', '14', '-seed', str(seed)]),
+                                      driver=['template-walk', '-n', '140' if tier == 'quick' else T(7000), '-steps', '14', '-seed', str(seed)]),
                                  # template-walk runs on a model of the dynamic cache (watch references, label-filtered events); the real
                                  # dynamiccache.Cache is held against the same reference model here: a template deleted and created again
                                  # (Watch, Free, Watch) must get its event handlers attached again, a freed kind serves nobody
@@ -553,7 +565,7 @@ CHECKS = {
                     dict(name='c20-enum', module='TraceReqMgr', shards=8 if tier == 'quick' else 14,
                          driver=['c20-script', '-mode', 'enum', '-steps', '4' if tier == 'quick' else '5']),
                     dict(name='c20-random', module='TraceReqMgr', shards=4 if tier == 'quick' else 14,
-                         driver=['c20-script', '-mode', 'random', '-n', '200' if tier == 'quick' else '5000', '-steps', '16', '-seed', str(seed)]),
+                         driver=['c20-script', '-mode', 'random', '-n', '200' if tier == 'quick' else T(5000), '-steps', '16', '-seed', str(seed)]),
                     dict(name='c20-stress', module='TraceReqMgr', shards=4 if tier == 'quick' else 14,
                          driver=['c20-stress', '-n', '16' if tier == 'quick' else '400', '-steps', '40', '-seed', str(seed)])]),
     'C14': dict(level='model_checking', assumptions=ASSUME, mc=deploy_mc('C14'),
@@ -563,25 +575,25 @@ CHECKS = {
                     dict(name='package-history', shards=4 if tier == 'quick' else 14,
                          driver=['package-history', '-n', '24' if tier == 'quick' else '800', '-steps', '8', '-seed', str(seed)]),
                     dict(name='package-collide', shards=4 if tier == 'quick' else 14,
-                         driver=['package-walk', '-profile', 'collide', '-mode', 'api', '-n', '40' if tier == 'quick' else '1500', '-steps', '160', '-seed', str(seed)]),
+                         driver=['package-walk', '-profile', 'collide', '-mode', 'api', '-n', '40' if tier == 'quick' else T(1500), '-steps', '160', '-seed', str(seed)]),
                     dict(name='package-sliced', shards=4 if tier == 'quick' else 14,
-                         driver=['package-walk', '-mode', 'api', '-n', '60' if tier == 'quick' else '2000', '-steps', '160', '-seed', str(seed)]),
-                    rnd('sliced-atomic', 'sliced', 'all', 'atomic', 80 if tier == 'quick' else 2000, 90, seed, 4 if tier == 'quick' else 14),
-                    rnd('sliced-api', 'sliced', 'all', 'api', 80 if tier == 'quick' else 2000, 160, seed, 4 if tier == 'quick' else 14)]),
+                         driver=['package-walk', '-mode', 'api', '-n', '60' if tier == 'quick' else T(2000), '-steps', '160', '-seed', str(seed)]),
+                    rnd('sliced-atomic', 'sliced', 'all', 'atomic', 80 if tier == 'quick' else TN(2000), 90, seed, 4 if tier == 'quick' else 14),
+                    rnd('sliced-api', 'sliced', 'all', 'api', 80 if tier == 'quick' else TN(2000), 160, seed, 4 if tier == 'quick' else 14)]),
     'C15': dict(level='model_checking', assumptions=ASSUME, mc=phase_mc,
                 invariants=INV['C15'] + INV['C01'] + INV['C02'] + INV['C03'] + INV['C04'] + INV['C05'] + INV['C06'] + ['Inv_C09_NoWritesWhilePaused'],
                 jobs=lambda tier, seed: [
                     dict(name='differential-c15', shards=5 if tier == 'quick' else 14, driver=['differential', '-profile', 'c15']),
                     rnd('delegated-atomic', 'delegated-mixed,delegated-handover,delegated-handover-recreated,local-to-delegated,rolledout-delegated,paused-start', 'all', 'atomic',
-                        80 if tier == 'quick' else 2000, 90, seed, 4 if tier == 'quick' else 14),
+                        80 if tier == 'quick' else TN(2000), 90, seed, 4 if tier == 'quick' else 14),
                     rnd('delegated-api', 'delegated-mixed,delegated-handover,delegated-handover-recreated,local-to-delegated,rolledout-delegated,paused-start', 'all', 'api',
-                        80 if tier == 'quick' else 2000, 160, seed, 4 if tier == 'quick' else 14),
+                        80 if tier == 'quick' else TN(2000), 160, seed, 4 if tier == 'quick' else 14),
                     dict(name='adopt-table-annotation', shards=4 if tier == 'quick' else 14,
-                         driver=['adopt-table', '-n', '1500' if tier == 'quick' else '20000', '-seed', str(seed + 11)], invariants=INV['C01'])]),
+                         driver=['adopt-table', '-n', '1500' if tier == 'quick' else T(20000), '-seed', str(seed + 11)], invariants=INV['C01'])]),
     'C11': dict(level='model_checking', invariants=INV['C11'], assumptions=ASSUME, jobs=lambda tier, seed: [
         # the scope rule for ObjectTemplates (sources and target of a namespaced template stay in its namespace; cluster-scoped kinds are out of reach)
         dict(name='template-scope', shards=4 if tier == 'quick' else 14, invariants=['Inv_C11_Scope', 'Inv_C18_InvalidNoWrite', 'Inv_C19_NoPanic'],
-             driver=['template-walk', '-n', '56' if tier == 'quick' else '2800', '-steps', '10', '-seed', str(seed)]),
+             driver=['template-walk', '-n', '56' if tier == 'quick' else T(2800), '-steps', '10', '-seed', str(seed)]),
         dict(name='preflight-table', shards=8 if tier == 'quick' else 14,
              driver=['preflight-table', '-n', '1500' if tier == 'quick' else '0', '-seed', str(seed)])]),
 }
